@@ -1006,7 +1006,22 @@ def gen_C08(rng, count, tier):
 SLOTNAMES = ["a", "ab", "abc", "", "api/x", "A", "a/", "x y", "é", "b"]
 
 
+def rereg_scenarios():
+    """a name registered again (and again) while a request for it waits for the rest of its body"""
+    out = []
+    for kind in ("functor", "pmf", "old"):
+        for ra in (1, 0):
+            head = b"POST /a HTTP/1.1\r\nContent-Length: 5\r\n\r\n"
+            for tail in (["feed:" + hx(b"hel"), "rereg:" + hx16("a"), "feed:" + hx(b"lo"), "turn"],
+                         ["rereg:" + hx16("a"), "rereg:" + hx16("a"), "feed:" + hx(b"hello"), "turn"],
+                         ["feed:" + hx(b"he"), "rereg:" + hx16("a"), "turn", "peerclose", "turn"]):
+                out.append(("slot", " ".join(["reg:%s:%s:%d" % (hx16("a"), kind, ra), "new", "feed:" + hx(head)] + tail)))
+    return out
+
+
 def gen_C15(rng, count, tier):
+    for sc in rereg_scenarios():
+        yield sc
     for i in range(count):
         regs = []
         two = rng.random() < 0.3          # registrations on receivers of two classes that declare the same slot signatures
@@ -1386,6 +1401,8 @@ def gen_C11(rng, count, tier):
     # inputs at the edge of the other components' domains, in every run
     for req in empty_range_requests():
         yield ("fs", "root:%s %s" % (hx(FSROOT.encode()), fs_events(req)))
+    for sc in rereg_scenarios():
+        yield sc
     for _ in range(per):
         # arbitrary bytes from the upstream server
         head, body = proxy_request(rng, with_body=False)
